@@ -276,9 +276,13 @@ def check_testbench(ctx, d, label, simcls):
         else:
             ctx.violation('testbench-not-in-subset', 'emitted testbench is outside the subset / ill-formed: %s' % e, replay)
         return False
-    if nmap is None or nmap2 is None:
+    if nmap2 is None:
         ctx.count('tb-skipped', 'name map unavailable')
         return True
+    if nmap is None:
+        # the testbench's sanitiser was not given every wire: whatever names it uses have to be the module's
+        ctx.count('tb-name-map', 'partial: checked against the module map')
+        nmap = nmap2
     if nmap != nmap2:
         ctx.violation('testbench-names', 'testbench and module sanitise names differently', replay)
         return False
@@ -411,6 +415,20 @@ def main(ctx):
                     ctx.count('names', 'collide-with-generated')
                 except pyrtl.PyrtlError:
                     pass
+        if k % 3 == 1:
+            # an INTERNAL wire whose name must be replaced and sorts before ports / registers whose names must be replaced too:
+            # module and testbench have to number their replacements alike
+            try:
+                inner = sorted((w for w in d.block.wirevector_set if type(w) is pyrtl.WireVector and w.name not in ('tb_iter', 'block')), key=lambda w: w.name)
+                if inner:
+                    rng.choice(inner).name = 'A.int%d' % k
+                    for cls_, pre in ((pyrtl.Input, 'in.'), (pyrtl.Register, 'pipe.'), (pyrtl.Output, 'out.')):
+                        ws2 = sorted(d.block.wirevector_subset(cls_), key=lambda w: w.name)
+                        if ws2:
+                            rng.choice(ws2).name = '%sx%d' % (pre, k)
+                    ctx.count('names', 'illegal-internal-before-illegal-ports')
+            except pyrtl.PyrtlError:
+                pass
         try:
             d.block.sanity_check()
         except pyrtl.PyrtlError:
